@@ -90,12 +90,17 @@ def read_form(rng, nd, var):
 
 
 def ensure_alias(aliases, nodes, call, src):
-    """An alias lives in the caller's module: alias_<target> = <target>."""
-    name = "alias_%s_%s" % (src["mod"], nodes[call["t"]]["name"])
+    """An alias lives in the caller's module: alias_<mod>_<target>[_n] = <target>. An existing alias is
+    re-used only while it still names the wanted target (aliases get re-bound by edits)."""
+    base = "alias_%s_%s" % (src["mod"], nodes[call["t"]]["name"])
     for al in aliases:
-        if al["name"] == name and al["mod"] == src["mod"]:
-            call["alias"] = name
+        if al["mod"] == src["mod"] and al["target"] == call["t"] and al["name"].startswith(base):
+            call["alias"] = al["name"]
             return
+    name, n = base, 1
+    while any(al["name"] == name and al["mod"] == src["mod"] for al in aliases):
+        n += 1
+        name = "%s_%d" % (base, n)
     aliases.append({"name": name, "mod": src["mod"], "target": call["t"]})
     call["alias"] = name
 
